@@ -7,7 +7,7 @@ C03 — the role discipline over whole histories: one role assignment `ρ` for t
 under which the call log of every encrypt is well-typed.
 -/
 set_option linter.unusedVariables false
-namespace AsherahVerif.Env
+namespace AsherahVerif.Env.Res
 
 /-- quiescent typing invariant: the call log of the last operation is not part of it. -/
 def TQ (ρ : RoleMap) (w : World) : Prop := TI ρ 0 { w with log := [] }
@@ -246,4 +246,4 @@ theorem data_secrets_closed {ρ : RoleMap} {w : World} (hq : QInv w) (ht : TQ ρ
     rw [← hmat, hd] at hrole
     cases hm : m.kid <;> simp [roleOfKid, hm] at hrole
 
-end AsherahVerif.Env
+end AsherahVerif.Env.Res
